@@ -4,6 +4,9 @@
      code 2: the implementation's observation differs from the reference semantics
      code 3: the case is outside the checker's precondition (not well_scoped, does not compile,
              outside the domain of the semantics, or too long for the evaluation fuel)
+     code 10: the key function of std.min / max / sorted(_by_key) changed the key set of the table
+             the library function is going through: outside the domain of the semantics (the
+             implementation iterates the live table there; see known_findings.json)
    Resource errors of the implementation (Timeout, Stackoverflow, CallStackOverflow,
    OutOfMemory) are not predicted: such cases are skipped (the harness counts them). *)
 From Cao Require Export CheckUtil CardAst RefSem RefScope.
@@ -93,13 +96,17 @@ Definition check1 (c : c01case) : list N :=
       match o with
       | ObsResource _ => []
       | ObsCompileError => [3]
-      | ObsPanic => [2]
+      | ObsPanic => match eval_program check_fuel m host with
+                    | PUnspec 12 => [10]
+                    | _ => [2]
+                    end
       | ObsRun k g l =>
           match eval_program check_fuel m host with
           | PObs o' =>
               (if okind_eqb k (ob_kind o') && globals_agree g (ob_globals o') && log_eqb l (ob_log o')
                then [] else [2])
           | PFuel => [3]
+          | PUnspec 12 => [10]
           | PUnspec _ => [3]
           end
       end
